@@ -32,7 +32,7 @@ Proof.
   assert (Hfin : dref_finish vf (lenN kids) (map erase kids) = Ok v).
   { unfold dref_finish, v. assert (E : lenN (map erase kids) = lenN kids) by (unfold lenN; rewrite map_length; reflexivity).
     rewrite E. rewrite N.mod_small by exact Hc32. rewrite N.eqb_refl. reflexivity. }
-  destruct (cnt_sr_canon ld LD dref_finish nm vf (lenN kids) kids v Hvf Hc32 HW Hfin Hfit pre post cst fuel Hs Hf) as [c1 E1].
+  destruct (cnt_sr_canon ld LD dref_finish true nm vf (lenN kids) kids v Hvf Hc32 HW Hfin Hfit pre post cst fuel Hs Hf) as [c1 E1].
   destruct (cnt_r_canon ld LD dref_finish nm vf (lenN kids) kids v Hvf Hc32 HW Hfin Hfit pre post cst2 fuel Hs Hf) as [c2 E2].
   unfold dref_sr, dref_r, h. rewrite E1, E2. split; [reflexivity|]. split; [reflexivity|].
   unfold stsd_size, v. cbn [sd_kids]. rewrite (sum_sizes_erase ld) by (exact HW || lia). unfold addu64. rewrite N.mod_small by lia. lia.
@@ -55,10 +55,10 @@ Proof.
   assert (HLp : lenN (be4 vf ++ be4 tid ++ cencs kids) = (8 + lenN (cencs kids))%N).
   { rewrite !lenN_app. assert (lenN (be4 vf) = 4%N) by reflexivity. assert (lenN (be4 tid) = 4%N) by reflexivity. lia. }
   assert (Hfin : trep_finish vf tid (map erase kids) = Ok v) by reflexivity.
-  destruct (cnt_sr_canon ld LD trep_finish nm vf tid kids v Hvf Htid HW Hfin Hfit pre post cst fuel Hs Hf) as [c1 E1].
+  destruct (cnt_sr_canon ld LD trep_finish false nm vf tid kids v Hvf Htid HW Hfin Hfit pre post cst fuel Hs Hf) as [c1 E1].
   assert (Hf2 : zlen (be4 vf ++ be4 tid ++ cencs kids) < Z.of_nat fuel).
   { rewrite !zlen_app in *. pose proof (zlen_nonneg post). lia. }
-  pose proof (cnt_deleg_r_canon ld LD trep_finish nm vf tid kids v Hvf Htid HW Hfin Hfit pre post cst2 fuel Hs Hf2) as E2.
+  pose proof (cnt_deleg_r_canon ld LD trep_finish false nm vf tid kids v Hvf Htid HW Hfin Hfit pre post cst2 fuel Hs Hf2) as E2.
   unfold trep_sr, trep_r, h. rewrite E1. split; [reflexivity|]. split; [exact E2|].
   unfold stsd_size, v. cbn [sd_kids]. rewrite (sum_sizes_erase ld) by (exact HW || lia). unfold addu64. rewrite N.mod_small by lia. lia.
 Qed.
